@@ -1777,3 +1777,7 @@ TABLE["C17"] += [
     N("non-ascii-as-universal-names-of-the-right-width",
       (PW, "        return '\"' + body.replace('\"', r'\\\"') + '\"'\n", "        body = re.sub(r'[^\\x00-\\x7f]', lambda match: ('\\\\u%04x' if ord(match.group(0)) <= 0xffff else '\\\\U%08x') % ord(match.group(0)), body)\n        return '\"' + body.replace('\"', r'\\\"') + '\"'\n")),
 ]
+TABLE["C12"] += [
+    B("matlab-files-joined-line-by-line", {"L7"}, (MW, "                content += f.read() + \"\\n\"", "                content += \"\\n\".join(f.read().splitlines()) + \"\\n\"")),
+    B("module-text-rewritten-before-parsing", {"L7"}, (IP + "module.py", "        return Module.rule.parseString(s)[0]", "        s = s.replace('\\t', ' ')\n        return Module.rule.parseString(s)[0]")),
+]
